@@ -2007,6 +2007,66 @@ add('c19-benign-exact-match-on-the-filtered-array', 'C19', 'benign', [(LOOK, """
                 return index[hit[0]]
             return Error.errors['#N/A']""")], may_error=True)
 
+# ---------------------------------------------------------------- round 7 rules
+PARSER = 'formulas/parser.py'
+add('c02-power-through-math-pow', 'C02', 'break', [(OPS, """    try:
+        r = x ** y
+    except OverflowError:
+        return Error.errors['#NUM!']
+    return Error.errors['#NUM!'] if isinstance(r, complex) else r""", """    import math
+    try:
+        return math.pow(x, y)
+    except OverflowError:
+        return Error.errors['#NUM!']""")], expect='C02.pow')
+add('c02-benign-power-through-math-pow-guarded', 'C02', 'benign', [(OPS, """    try:
+        r = x ** y
+    except OverflowError:
+        return Error.errors['#NUM!']
+    return Error.errors['#NUM!'] if isinstance(r, complex) else r""", """    import math
+    try:
+        return math.pow(x, y)
+    except (OverflowError, ValueError):
+        return Error.errors['#NUM!']""")], may_error=True)
+add('c06-range-operator-selects-blocks-by-name', 'C06', 'break', [(RANGES, """            values = self.values.copy()
+            values.update(other.values)
+            value = _assemble_values(rng, values)""", """            names = {r['name'] for r in self.ranges + other.ranges}
+            values = {
+                k: v for k, v in {**self.values, **other.values}.items()
+                if k in names
+            }
+            value = _assemble_values(rng, values)""")], expect='C06.allvalues')
+add('c06-benign-range-operator-merges-blocks-with-unpacking', 'C06', 'benign', [(RANGES, """            values = self.values.copy()
+            values.update(other.values)
+            value = _assemble_values(rng, values)""", """            values = {**self.values, **other.values}
+            value = _assemble_values(rng, values)""")])
+add('c08-inverse-record-filtered', 'C08', 'break', [(CELL, """                d['inv-data'] = set(self.outputs)""", """                d['inv-data'] = set(filter(
+                    lambda k: isinstance(self.outputs[k], tuple), self.outputs
+                ))""")], expect='C08.invdata')
+add('c08-benign-inverse-record-as-comprehension', 'C08', 'benign', [(CELL, """                d['inv-data'] = set(self.outputs)""", """                d['inv-data'] = {k for k in self.outputs}""")])
+add('c13-truncation-of-the-whole-draw', 'C13', 'break', [(MATH, """    return bottom + int(np.random.rand() * (top - bottom + 1))""", """    return int(np.random.rand() * (top - bottom + 1) + bottom)""")], expect='C13.randint')
+add('c13-benign-floor-of-the-whole-draw', 'C13', 'benign', [(MATH, """    return bottom + int(np.random.rand() * (top - bottom + 1))""", """    return math.floor(bottom + np.random.rand() * (top - bottom + 1))""")], may_error=True)
+add('c17-state-with-a-shallow-copy-of-the-dispatcher', 'C17', 'break', [(EXCEL, """        return {'dsp': self.dsp, 'cells': {}, 'books': {}}""", """        import copy
+        return {'dsp': copy.copy(self.dsp), 'cells': {}, 'books': {}}""")], expect='C17.hooks')
+add('c17-benign-state-built-in-steps', 'C17', 'benign', [(EXCEL, """        return {'dsp': self.dsp, 'cells': {}, 'books': {}}""", """        state = {'cells': {}, 'books': {}}
+        state['dsp'] = self.dsp
+        return state""")], may_error=True)
+add('c18-only-the-top-of-the-stack-tested-at-the-end', 'C18', 'break', [(PARSER, """        while stack:
+            if isinstance(stack[-1], Parenthesis):
+                raise ParenthesesError()
+            builder.append(stack.pop())""", """        if stack:
+            if isinstance(stack[-1], Parenthesis):
+                raise ParenthesesError()
+            builder.append(stack.pop())""")], expect='C18.drain')
+add('c18-benign-stack-drained-with-reversed-loop', 'C18', 'benign', [(PARSER, """        while stack:
+            if isinstance(stack[-1], Parenthesis):
+                raise ParenthesesError()
+            builder.append(stack.pop())""", """        while stack:
+            token = stack.pop()
+            if isinstance(token, Parenthesis):
+                raise ParenthesesError()
+            builder.append(token)""")])
+add('c18-number-regex-with-unicode-digits', 'C18', 'break', [(OPERAND, """(?>[0-9]+(?>\\.[0-9]+)?|\\.[0-9]+)(?>E[+-][0-9]+)?""", """(?>\\d+(?>\\.\\d+)?|\\.\\d+)(?>E[+-]\\d+)?""")], expect='C18.num')
+
 if __name__ == '__main__':
     here = os.path.dirname(os.path.abspath(__file__))
     ids = [v['id'] for v in V]
